@@ -27,7 +27,7 @@ def SL(name, builder, K, timeout_s=1500, params=None):
 
 def units(tier):
     t = 1500 if tier == "thorough" else 700
-    return [
+    u = [
         SL("slice.terminate_broken", "x6_terminate_broken", 44),
         H("C20", M, "check_join_internals", t, [PE + "join_executor_internals"], "0..3 workers"),
         H("C20", M, "check_shutdown_workers_small_queue", t, [PE + "shutdown_workers", PE + "get_n_children_alive"],
@@ -50,3 +50,6 @@ def units(tier):
           "same through the pgrep fallback; children forked by main or helper threads (per-thread procfs view offered)"),
         H("C20", "lokyverif.harness.c12_tracker_ctl", "check_ensure_running", t, ["loky.backend.resource_tracker:ResourceTracker.ensure_running"], "<=3 restarts, no descriptor left behind"),
     ]
+    if tier == "thorough":
+        u += [SL("slice.terminate_broken.n3", "x6_terminate_broken", 56, timeout_s=3000, params={"n": 3})]
+    return u
